@@ -104,7 +104,7 @@ func genRef(t *rapid.T, label string, forgedOutOf10 int) Ref {
 func genIssue(t *rapid.T, label string, hosts bool) Op {
 	o := Op{Kind: "issue"}
 	o.Client = rapid.SampledFrom([]string{"ca", "ca", "cb", "cb", "cp", "ck", "svc"}).Draw(t, label+"client")
-	o.User = rapid.SampledFrom(vkit.UserIDs).Draw(t, label+"user")
+	o.User = rapid.SampledFrom(vkit.AllUserIDs).Draw(t, label+"user")
 	o.Scope = rapid.IntRange(0, len(scopeVariants)-1).Draw(t, label+"scope")
 	o.Offline = rapid.Bool().Draw(t, label+"offline")
 	if hosts {
@@ -317,7 +317,7 @@ func (e *env) denote(s string, h int) (*mtok, string) {
 		}
 	}
 	if pt, ok := unseal(s, e.key); ok {
-		parts := strings.Split(pt, ":")
+		parts := strings.SplitN(pt, ":", 2)
 		if len(parts) == 2 {
 			if t := e.byID[parts[0]]; t != nil && t.kind != "refresh" && t.subject == parts[1] {
 				return t, "alias"
@@ -430,7 +430,7 @@ func (e *env) resolve(r Ref, h int) presented {
 		case "o-unknown-id":
 			s = seal(fmt.Sprintf("at-%d:%s", 9000+r.Arg, at.subject), e.key, salt)
 		case "o-wrong-sub":
-			sub := vkit.UserIDs[r.Arg%len(vkit.UserIDs)]
+			sub := vkit.AllUserIDs[r.Arg%len(vkit.AllUserIDs)]
 			if sub == at.subject {
 				sub = "nobody"
 			}
@@ -691,7 +691,7 @@ func (e *env) adopt(resp *vkit.Resp, client, subject, flow string, h int) *grant
 	g := &grant{client: client, host: e.ags[h].Host, idToken: resp.Str("id_token"), flow: flow}
 	t := &mtok{str: at, host: g.host}
 	if pt, ok := unseal(at, e.key); ok {
-		parts := strings.Split(pt, ":")
+		parts := strings.SplitN(pt, ":", 2)
 		if len(parts) != 2 {
 			return nil
 		}
@@ -966,7 +966,7 @@ func (e *env) revoke(o Op) {
 		// the record by id, so for revocation this is an alias of that record (grey answer; effect only for its owner).
 		// The same holds for the bare record id: an undecodable string is handed to Storage.RevokeToken as "token or id".
 		if pt, ok := unseal(p.str, e.key); ok {
-			if parts := strings.Split(pt, ":"); len(parts) == 2 {
+			if parts := strings.SplitN(pt, ":", 2); len(parts) == 2 {
 				if t := e.byID[parts[0]]; t != nil && t.kind != "refresh" {
 					p.tok, p.class = t, "alias"
 				}
@@ -1223,7 +1223,7 @@ func (e *env) exchangeP(o Op, subj presented, actor *presented, h int) {
 			dead = *actor
 		}
 		sealedPair := false // unseals to "x:y": all the library itself checks of an opaque access token in an exchange
-		if pt, ok := unseal(dead.str, e.key); ok && len(strings.Split(pt, ":")) == 2 {
+		if pt, ok := unseal(dead.str, e.key); ok && len(strings.SplitN(pt, ":", 2)) == 2 {
 			sealedPair = true
 		}
 		if role != "" && e.c.TELax && ((dead.tok != nil && dead.tok.kind != "refresh") || sealedPair) {
